@@ -171,7 +171,7 @@ def gen_histories(ctx):
             for o in rng.sample([A(x) for x in NAMES], 2) + [rnd_operator(rng)]:
                 singles.append((p, s, o))
     rng.shuffle(singles)
-    for c in singles[: ctx.scale(150, 5000)]:
+    for c in singles[: ctx.scale(150, 1500)]:
         hs.append([c])
     # the list forms that must be all-or-nothing: a clean name together with one that is rejected
     for bad, mk in (("+", "xf"), ("-", "yf"), ("mod", "xf"), (",", "xfx"), ("[]", "fy"), ("{}", "fy"), ("|", "fy"), ("|", "xfy")):
@@ -179,7 +179,7 @@ def gen_histories(ctx):
             for order in (0, 1):
                 names = [A(good), A(bad)] if order == 0 else [A(bad), A(good)]
                 hs.append([(I(200), A(mk), terms.mklist(names))])
-    for _ in range(ctx.scale(360, 60000)):
+    for _ in range(ctx.scale(360, 6000)):
         hs.append([rnd_call(rng) for _ in range(rng.choice([2, 3, 4, 5, 6, 6]))])
     return hs
 
